@@ -323,6 +323,15 @@ def case_axi(ctx, mode, grad=True):
         exp = oracle_bilinear(ctx, v, w, f[:2, :2], dVx, True, False, "iJ")
         exp[1::2, :] = exp[1::2, :] + oracle_bilinear(ctx, s, w, f[2, 2] / Rad, dVx, False, False, "")
         ctx.equal("axisymmetric_mixed_matrix", dense(ctx, got), exp)
+    elif mode == 31:
+        # a zero (None) block of a mixed-field hessian (e.g. the (u, J) block of NearlyIncompressible): nothing to integrate, empty matrix
+        w = fem.Field(region, dim=1)
+        form = IntegralFormAxisymmetric(None, v, region.dV, u=w, grad_v=True, grad_u=False)
+        ctx.check_concrete("none_block_integrates_to_none", form.integrate() is None)
+        got = form.assemble()
+        ctx.equal("none_block_assembles_to_zero_matrix", dense(ctx, got), np.zeros((n2, m.npoints), dtype=int))
+        s_ = ctx.var("s", 0.5, 2)
+        ctx.equal("solver_content", s_ * 1, s_)
     elif mode == 40:
         w = fem.Field(region, dim=1)
         w.radius = Rad
@@ -452,7 +461,7 @@ def cases(tier):
             out.append(("blocks", case_blocks, {"mode": mode, "with_none": wn}))
     out.append(("uniform", case_uniform, {"bilinear": False}))
     out.append(("uniform", case_uniform, {"bilinear": True}))
-    for mode, grad in [(1, True), (1, False), (2, True), (2, False), (10, True), (30, True), (40, True)]:
+    for mode, grad in [(1, True), (1, False), (2, True), (2, False), (10, True), (30, True), (31, True), (40, True)]:
         out.append(("axi", case_axi, {"mode": mode, "grad": grad}))
     out.append(("form_api", case_form_api, {"kind": "linear"}))
     out.append(("form_api", case_form_api, {"kind": "linear", "parallel": True}))
